@@ -782,6 +782,15 @@ class Exec:
             raise Unsupported(f'comprehension shape@{e.lineno}')
         gen = e.generators[0]
         it = gen.iter
+        if (isinstance(it, ast.Call) and isinstance(it.func, ast.Attribute) and it.func.attr == 'items' and not it.args and not gen.ifs
+                and isinstance(it.func.value, ast.Name) and isinstance(p.env.get(it.func.value.id), ObjV)
+                and p.env[it.func.value.id].cls == 'opaque' and isinstance(gen.target, ast.Tuple) and len(gen.target.elts) == 2
+                and all(isinstance(x, ast.Name) for x in gen.target.elts) and isinstance(key_expr, ast.Name)
+                and key_expr.id == gen.target.elts[0].id and isinstance(val_expr, ast.Call) and self.opaque_pure(val_expr.func)
+                and len(val_expr.args) == 1 and isinstance(val_expr.args[0], ast.Name) and val_expr.args[0].id == gen.target.elts[1].id):
+            # `{k: F(v) for k, v in kwargs.items()}` over keyword arguments the contract does not look into: the same keys, opaque values
+            self.calls.append(f'{self.module}.{val_expr.func.id}')
+            return ObjV('opaque')
         if (isinstance(it, ast.Call) and isinstance(it.func, ast.Attribute) and it.func.attr == 'values' and not it.args
                 and isinstance(it.func.value, ast.Attribute) and it.func.value.attr == '_succ' and val_expr is None and not gen.ifs
                 and isinstance(gen.target, ast.Tuple) and len(gen.target.elts) == 3 and isinstance(key_expr, ast.Name)
@@ -1173,9 +1182,23 @@ class Exec:
             raise Unsupported('filter with non-closure')
         return ObjV('filter', dict(pred=f, src=xs))
 
+    def opaque_pure(self, f):
+        """`f` names a function of the module whose contract is pure on opaque values (no manager, opaque in, opaque out)"""
+        c = self.reg.get(f'{self.module}.{f.id}') if isinstance(f, ast.Name) else None
+        return c is not None and c.ret == 'opaque' and not c.modifies and [k for _, k in c.params] == ['opaque']
+
+    def builtin_tuple(self, e, p):
+        v = self.ev(e.args[0], p) if len(e.args) == 1 and not e.keywords else None
+        if isinstance(v, ObjV) and v.cls == 'opaque':
+            return ObjV('opaque')        # a tuple of values the contract does not look into
+        raise Unsupported(f'tuple(...)@{e.lineno}')
+
     def builtin_map(self, e, p):
         f = e.args[0]
         src = self.ev(e.args[1], p)
+        if isinstance(src, ObjV) and src.cls == 'opaque' and self.opaque_pure(f):
+            self.calls.append(f'{self.module}.{f.id}')
+            return ObjV('opaque')        # the images of opaque values under a pure function on opaque values
         if isinstance(f, ast.Name) and f.id == 'abs' and isinstance(src, SetV) and src.kkind == 'int':
             return ObjV('mapabs', dict(src=src))
         if not (isinstance(f, ast.Name) and f.id == 'abs' and isinstance(src, ObjV) and src.cls == 'filter'):
